@@ -44,7 +44,7 @@ type Mut struct {
 
 // Hop is one step of the call chain.
 type Hop struct {
-	Kind   int  `json:"kind"`          // HopCall | HopDyn | HopNative | HopSelf
+	Kind   int  `json:"kind"`          // HopCall | HopDyn | HopNative | HopSelf | HopReward
 	Target int  `json:"target"`        // contract index 0..3 (call, native) or dynamic script variant 0..1 (dyn); unused for self
 	Flags  int  `json:"flags"`         // requested call flags (call, dyn, self); native hops always run with All
 	Mut    *Mut `json:"mut,omitempty"` // call / native hops only
@@ -92,6 +92,7 @@ func (w *world) positions(c Case, entry util.Uint160) ([]pos, pos, map[util.Uint
 	}
 	destroyed := map[util.Uint160]bool{}
 	anyDestroyed := false
+	rewarded := map[util.Uint160]bool{}
 	var chain []pos
 	p := pos{cur: entry, flags: callflag.All}
 	chain = append(chain, p)
@@ -143,6 +144,23 @@ func (w *world) positions(c Case, entry util.Uint160) ([]pos, pos, map[util.Uint
 			// The native contract is a contract of its own: it is called by the previous context and it calls the
 			// payment callback.
 			n = pos{cur: w.contracts[h.Target], calling: nativehashes.GasToken, hasCalling: true, level: p.level + 2, flags: callflag.All}
+		case HopReward:
+			isContract := false
+			for _, ch := range w.contracts {
+				if ch == p.cur {
+					isContract = true
+				}
+			}
+			if !isContract || p.cur == entry || p.flags != callflag.All {
+				return bad("hop %d: chain not executable (the reward hop is made by a deployed contract holding All)", i)
+			}
+			if anyDestroyed || rewarded[p.cur] {
+				return bad("hop %d: the reward of a contract is paid once per execution, and not after a destruction", i)
+			}
+			rewarded[p.cur] = true
+			// The contract itself is re-entered: called by GAS (explicit calling hash), two contexts further from the
+			// entry script (NEO's context and the callback's).
+			n = pos{cur: p.cur, calling: nativehashes.GasToken, hasCalling: true, level: p.level + 2, flags: callflag.All}
 		default:
 			return bad("hop %d: bad kind", i)
 		}
